@@ -419,6 +419,268 @@ def Mdl.psd (m : Mdl α) (flt : Filt α) (f fc dc : α) (pars : List α) : Excep
 
 end filters
 
+section deepen
+variable {α : Type} [RealLike α]
+open RealLike
+
+/-! ## Deepening round D — the objective of `_fit_power_spectra` -/
+
+/-- `chi_squared = np.sum(((1 / model(f, *p) - 1 / powers) / sigma) ** 2)` with
+    `sigma = (1.0 / powers) / math.sqrt(num_points_per_block)`; this is also the sum of squares
+    `curve_fit` minimises (`ydata = 1/powers`, `f = 1/model`, `sigma`, `absolute_sigma=True`).
+    `psd` is the spectrum model at the candidate parameters. -/
+def chi2 (psd : α → α) (n : α) : List α → List α → α
+  | f :: fs, p :: ps =>
+    let sigma := (1.0 / p) / sqrt n
+    let r := (1.0 / psd f - 1.0 / p) / sigma
+    r * r + chi2 psd n fs ps
+  | _, _ => 0.0
+
+/-- Lorentzian × diode filter: the spectrum model of a non-hydrodynamic model with a free diode -/
+def lorentzDiodePsd (f fc dc fd al : α) : α := lorentzianPsd f fc dc * gDiode f fd al
+
+/-! ## Deepening round D — `estimate_driving_input_parameters` after the FFT -/
+
+/-- the parabola through three points in Newton form: what `np.polyfit(x, y, 2)` returns for three
+    points (`p[0]·x² + p[1]·x + p[2]`; the least-squares problem is an exact interpolation) -/
+def parabola3 (x0 x1 x2 y0 y1 y2 : α) : α × α × α :=
+  let d01 := (y1 - y0) / (x1 - x0)
+  let d12 := (y2 - y1) / (x2 - x1)
+  let p0 := (d12 - d01) / (x2 - x0)
+  let p1 := d01 - p0 * (x0 + x1)
+  let p2 := y0 - p1 * x0 - p0 * (x0 * x0)
+  (p0, p1, p2)
+
+/-- `np.argmax`: index of the first maximum (`k` = index of the head, `(bi, bv)` best so far) -/
+def argmaxGo : List α → Nat → Nat → α → Nat
+  | [], _, bi, _ => bi
+  | x :: t, k, bi, bv => if lt bv x then argmaxGo t (k + 1) k x else argmaxGo t (k + 1) bi bv
+
+def argmax : List α → Nat
+  | [] => 0
+  | x :: t => argmaxGo t 1 0 x
+
+/-- `np.logical_and(frequency > guess - search, frequency < guess + search)` -/
+def searchMask (freqs : List α) (guess search : α) : List Bool :=
+  freqs.map fun f => lt (guess - search) f && lt f (guess + search)
+
+/-- `arr[mask]` -/
+def maskSelect {β : Type} : List β → List Bool → List β
+  | x :: xs, true :: ms => x :: maskSelect xs ms
+  | _ :: xs, false :: ms => maskSelect xs ms
+  | _, _ => []
+
+/-- `np.where(mask)[0][0]` -/
+def firstTrue : List Bool → Option Nat
+  | [] => none
+  | true :: _ => some 0
+  | false :: t => (firstTrue t).map (· + 1)
+
+inductive DriveErr where
+  | index      -- IndexError (empty search range / fit range beyond the spectrum)
+  | runtime    -- RuntimeError (no peak / peak outside the search range)
+  | wrap       -- peak bin 0: `fit_range` starts at −1 (wrap-around), outside the model
+deriving Repr, DecidableEq
+
+def DriveErr.name : DriveErr → String
+  | .index => "IndexError"
+  | .runtime => "RuntimeError"
+  | .wrap => "unmodelled-wraparound"
+
+structure DriveEst (α : Type) where
+  maxIdx : Nat
+  p0 : α
+  p1 : α
+  p2 : α
+  freq : α
+  amp : α
+  ampStd : α
+
+/-- `estimate_driving_input_parameters` after the peak bin `m` is known: three-point fit of the
+    log-magnitudes `log a_i` at the frequencies `x_i` (bins `m-1, m, m+1`), the two `RuntimeError`
+    branches, vertex, Gaussian amplitude and the noise estimate.
+    `delta = 2/sample_rate`, `npts = len(data)`, `totalPower = np.var(data)`,
+    `sumW`, `sumW2` the sums of the window and of its square. -/
+def drivePost (m : Nat) (x0 x1 x2 a0 a1 a2 guess search delta npts totalPower sumW sumW2 : α) :
+    Except DriveErr (DriveEst α) :=
+  let p := parabola3 x0 x1 x2 (log a0) (log a1) (log a2)
+  let p0 := p.1
+  let p1 := p.2.1
+  let p2 := p.2.2
+  if le 0.0 p0 then .error .runtime
+  else
+    let freq := -p1 / (2.0 * p0)
+    if lt freq (guess - search) || lt (guess + search) freq then .error .runtime
+    else
+      let amp := exp (p2 - 0.25 * (p1 * p1) / p0 + 0.5 * log (-pi / p0)) * delta
+      let enbw := npts * sumW2 / (sumW * sumW)
+      let noiseStd := sqrt (abs (totalPower - amp * amp / 2.0))
+      .ok { maxIdx := m, p0, p1, p2, freq, amp, ampStd := enbw * noiseStd / sqrt npts }
+
+/-- the peak bin: `np.where(search_range)[0][0] + np.argmax(np.abs(windowed_fft[search_range]))` -/
+def peakBin (freqs mags : List α) (guess search : α) : Option Nat :=
+  let mask := searchMask freqs guess search
+  (firstTrue mask).map fun first => first + argmax (maskSelect mags mask)
+
+/-- `estimate_driving_input_parameters` (`n_fit = 1`) from the magnitudes `|rfft(window·(x − mean))|`
+    on the frequency axis `freqs` -/
+def estimateDrive (freqs mags : List α) (guess search delta npts totalPower sumW sumW2 : α) :
+    Except DriveErr (DriveEst α) :=
+  match peakBin freqs mags guess search with
+  | none => .error .index
+  | some m =>
+    -- fit_range = arange(m - 1, m + 2); for m = 0 NumPy's negative index wraps around: not modelled
+    if m = 0 then .error .wrap
+    else
+      match freqs[m - 1]?, freqs[m]?, freqs[m + 1]?, mags[m - 1]?, mags[m]?, mags[m + 1]? with
+      | some x0, some x1, some x2, some a0, some a1, some a2 =>
+        drivePost m x0 x1 x2 a0 a1 a2 guess search delta npts totalPower sumW sumW2
+      | _, _, _, _, _, _ => .error .index
+
+end deepen
+
+/-! ## Deepening round D — argument validation of `fit_power_spectrum` -/
+
+inductive Loss where
+  | gaussian
+  | lorentzian
+  | other        -- any other string
+deriving Repr, DecidableEq
+
+inductive FitErr where
+  | runtime
+  | value
+deriving Repr, DecidableEq
+
+def FitErr.name : FitErr → String
+  | .runtime => "RuntimeError"
+  | .value => "ValueError"
+
+/-- the `raise` statements of `fit_power_spectrum` before anything is fitted, in the order the code
+    executes them: fewer than 4 points, unknown loss function, bias correction with the robust
+    loss, empty analytical fit range (`nAnl` = number of points inside `analytical_fit_range`) -/
+def fitValidate (npts : Nat) (loss : Loss) (bias : Bool) (nAnl : Nat) : Option FitErr :=
+  if npts < 4 then some .runtime
+  else match loss with
+    | .other => some .value
+    | .lorentzian => if bias then some .runtime else if nAnl < 1 then some .runtime else none
+    | .gaussian => if nAnl < 1 then some .runtime else none
+
+/-! ## Deepening round D — the spectrum as a function of frequency, the driven peak -/
+
+section deepen2
+variable {α : Type} [RealLike α]
+
+/-- `lambda f: model(f, fc, D, *pars)` as `_fit_power_spectra` evaluates it on the frequency axis;
+    `nan` stands for a call that raises (checked once, before the sum, by the `c11.chi2` op) -/
+def Mdl.psdOr (m : Mdl α) (flt : Filt α) (fc dc : α) (pars : List α) (nan : α) : α → α :=
+  fun f => match m.psd flt f fc dc pars with
+    | .ok v => v
+    | .error _ => nan
+
+/-- `DrivenPower.determine_power_output`: `max_idx = np.argmax(self.ps.power)`,
+    `max_power_density = self.ps.power[max_idx]` -/
+def peakPower (powers : List α) : Option α := powers[argmax powers]?
+
+end deepen2
+
+/-! ## Deepening round D — start values and bounds of the filter parameters -/
+
+section deepen3
+variable {α : Type} [RealLike α]
+
+/-- `DiodeModel().fitted_params` as `(initial, lower_bound, upper_bound(sample_rate))` -/
+def diodeParams (rate : α) : List (α × α × α) :=
+  [(14000.0, 1.0, rate / 2.0), (0.3, 0.0, 1.0)]
+
+/-- `filter.fitted_params` → `initial_values`, `lower_bounds()`, `upper_bounds(sample_rate)`:
+    `FixedDiodeModel` keeps `[parameter for fixed, parameter in zip(fixed_params, diode_params) if fixed is None]` -/
+def Filt.fittedParams : Filt α → α → List (α × α × α)
+  | .noFilter, _ => []
+  | .diode, rate => diodeParams rate
+  | .fixed fd al, rate =>
+    ((([fd, al] : List (Option α)).zip (diodeParams rate)).filter fun x => x.1.isNone).map (·.2)
+
+end deepen3
+
+/-! ## Deepening round D — the glue of `calibrate_force` (argument validation, filter choice) -/
+
+section deepen4
+variable {α : Type} [RealLike α]
+open RealLike
+
+/-- the keyword arguments of `lk.calibrate_force` that decide which model and filter are built -/
+structure CalibArgs (α : Type) where
+  o : Opts α
+  drag : Option α
+  fixedD : Option α
+  fixedA : Option α
+  active : Bool
+  /-- `driving_data is not None and driving_data.size > 0` -/
+  hasDriving : Bool
+  guess : Option α
+
+/-- Python truthiness of an optional float (`if drag:`) -/
+def optTruthy : Option α → Bool
+  | some g => truthy g
+  | none => false
+
+/-- the `raise ValueError` statements of `calibrate_force`, in the order the code executes them -/
+def calibValidate (a : CalibArgs α) : Option Err :=
+  if a.active && a.o.axial then some .value
+  else if a.active && optTruthy a.drag then some .value
+  else if (a.fixedD.isSome || a.fixedA.isSome) && a.o.fast then some .value
+  else if a.active && !a.hasDriving then some .value
+  else if a.active && (match a.guess with
+      | none => true
+      | some g => !truthy g || lt g 0.0) then some .value
+  else none
+
+/-- the filter the fit ends up with: `FixedDiodeModel` replaces the constructor's choice as soon as
+    one of `fixed_diode`, `fixed_alpha` is given; otherwise `NoFilter` for a fast sensor, else
+    `DiodeModel` -/
+def chooseFilter (a : CalibArgs α) : Filt α :=
+  if a.fixedD.isSome || a.fixedA.isSome then .fixed a.fixedD a.fixedA
+  else if a.o.fast then .noFilter else .diode
+
+/-- `calibrate_force` up to (not including) the power spectrum and the fit: validation, model
+    construction (`ActiveCalibrationModel` passes `axial=False`), `_set_drag`, filter choice -/
+def calibSetup (a : CalibArgs α) : Except Err (Mdl α × Filt α) :=
+  match calibValidate a with
+  | some e => .error e
+  | none =>
+    match mkModel (if a.active then { a.o with axial := false } else a.o) with
+    | .error e => .error e
+    | .ok m =>
+      let m := if optTruthy a.drag then m.setDrag (a.drag.getD 0.0) else m
+      let flt := chooseFilter a
+      match flt.validate with
+      | some e => .error e
+      | none => .ok (m, flt)
+
+end deepen4
+
+/-! ## Deepening round D — the robust loss (`loss_function="lorentzian"`) and `ScaledModel` -/
+
+section deepen5
+variable {α : Type} [RealLike α]
+open RealLike
+
+/-- `lorentzian_loss(p, model, frequencies, powers, num_points_per_block)`:
+    `np.sum(np.log(1 + 0.5 * ((powers - expectation) / gamma) ** 2))`, `gamma = expectation / n**0.5` -/
+def lorentzianLoss (psd : α → α) (n : α) : List α → List α → α
+  | f :: fs, p :: ps =>
+    let e := psd f
+    let gam := e / sqrt n
+    let r := (p - e) / gam
+    log (1.0 + 0.5 * (r * r)) + lorentzianLoss psd n fs ps
+  | _, _ => 0.0
+
+/-- `ScaledModel.scale_params`: `rescaled_params * self._scale_factors` -/
+def scaleParams (scaled scale : List α) : List α := List.zipWith (· * ·) scaled scale
+
+end deepen5
+
 /-! ## Line protocol -/
 
 def optFloat? (s : String) : Option (Option Float) :=
@@ -511,8 +773,16 @@ def handle : List String → Option String
   | "c11.active" :: rest => do
     let (o, drag, rest) ← parseOpts? rest
     let (flt, rest) ← parseFilt? rest
+    -- an optional last token `[powers]`: the spectrum of `DrivenPower` around the driving peak; the
+    -- peak density is then taken by the model (`peakPower`), not from the `maxP` token
+    let (rest, powers) ← (match rest with
+      | [a, b, c, d, e, f, g, h, i, j, k, pw] => (floatList? pw).map fun l => ([a, b, c, d, e, f, g, h, i, j, k], some l)
+      | _ => some (rest, none))
     match rest with
     | [fd, amp, ampErr, maxP, df, pErr, fc, dc, efc, edc, pars] =>
+      let maxP ← (match powers with
+        | some l => (peakPower l).map showFloat
+        | none => some maxP)
       let fd ← float? fd; let amp ← float? amp; let ampErr ← float? ampErr
       let maxP ← float? maxP; let df ← float? df; let pErr ← float? pErr
       let fc ← float? fc; let dc ← float? dc; let efc ← float? efc; let edc ← float? edc
@@ -580,6 +850,96 @@ def handle : List String → Option String
   | ["c11.bias2", n, dc, edc] => do
     let n ← nat? n; let dc ← float? dc; let edc ← float? edc
     some (showFloat (biasCorrect (Float.ofNat n) dc) ++ " " ++ showFloat (biasCorrect (Float.ofNat n) edc))
+  | "c11.chi2" :: rest => do
+    -- the objective of `_fit_power_spectra` at given parameters, and `chi_squared_per_deg`
+    let (o, drag, rest) ← parseOpts? rest
+    let (flt, rest) ← parseFilt? rest
+    match rest with
+    | [fs, ps, n, fc, dc, pars] =>
+      let fs ← floatList? fs; let ps ← floatList? ps; let n ← nat? n
+      let fc ← float? fc; let dc ← float? dc; let pars ← floatList? pars
+      if fs.length ≠ ps.length then none
+      else
+      match construct o drag with
+      | .error e => some e.name
+      | .ok m =>
+        match flt.validate with
+        | some e => some e.name
+        | none =>
+          match m.psd flt (fs.headD 1.0) fc dc pars with
+          | .error e => some e.name
+          | .ok _ =>
+            let c := chi2 (m.psdOr flt fc dc pars (0.0 / 0.0)) (Float.ofNat n) fs ps
+            let dof := Float.ofNat fs.length - Float.ofNat (2 + pars.length)
+            some ("ok " ++ showFloatList [c, c / dof])
+    | _ => none
+  | ["c11.drive", freqs, mags, guess, search, delta, npts, tp, sw, sw2] => do
+    let freqs ← floatList? freqs; let mags ← floatList? mags
+    let guess ← float? guess; let search ← float? search; let delta ← float? delta
+    let npts ← float? npts; let tp ← float? tp; let sw ← float? sw; let sw2 ← float? sw2
+    if freqs.length ≠ mags.length then none
+    else
+    match estimateDrive freqs mags guess search delta npts tp sw sw2 with
+    | .error e => some e.name
+    | .ok r => some (s!"ok {r.maxIdx} " ++ showFloatList [r.freq, r.amp, r.ampStd] ++ " " ++
+        showFloatList [r.p0, r.p1, r.p2])
+  | ["c11.fitvalidate", npts, loss, bias, nAnl] => do
+    let npts ← nat? npts; let bias ← bool? bias; let nAnl ← nat? nAnl
+    let loss : Loss := if loss == "gaussian" then .gaussian else if loss == "lorentzian" then .lorentzian else .other
+    match fitValidate npts loss bias nAnl with
+    | some e => some e.name
+    | none => some "ok"
+  | "c11.fitbounds" :: rest => do
+    let (flt, rest) ← parseFilt? rest
+    match rest with
+    | [rate] =>
+      let rate ← float? rate
+      match flt.validate with
+      | some e => some e.name
+      | none =>
+        let ps := flt.fittedParams rate
+        some ("ok " ++ showFloatList (ps.map (·.1)) ++ " " ++ showFloatList (ps.map (·.2.1)) ++ " " ++
+          showFloatList (ps.map (·.2.2)))
+    | _ => none
+  | "c11.calibsetup" :: rest => do
+    let (o, drag, rest) ← parseOpts? rest
+    match rest with
+    | [fd, al, active, hasDriving, guess] =>
+      let fd ← optFloat? fd; let al ← optFloat? al
+      let active ← bool? active; let hasDriving ← bool? hasDriving; let guess ← optFloat? guess
+      match calibSetup { o, drag, fixedD := fd, fixedA := al, active, hasDriving, guess } with
+      | .error e => some e.name
+      | .ok (_, flt) =>
+        let status : Option Float → String := fun x => match x with | some v => "fixed=" ++ showFloat v | none => "fitted"
+        let shape := match flt with
+          | .noFilter => "absent absent"
+          | .diode => "fitted fitted"
+          | .fixed a b => status a ++ " " ++ status b
+        some s!"ok {shape} {2 + (flt.fittedParams 2.0).length}"
+    | _ => none
+  | "c11.lloss" :: rest => do
+    -- lorentzian_loss(p, ScaledModel(model, scale), f, P, n)
+    let (o, drag, rest) ← parseOpts? rest
+    let (flt, rest) ← parseFilt? rest
+    match rest with
+    | [fs, ps, n, scaled, scale] =>
+      let fs ← floatList? fs; let ps ← floatList? ps; let n ← nat? n
+      let scaled ← floatList? scaled; let scale ← floatList? scale
+      if fs.length ≠ ps.length || scaled.length ≠ scale.length then none
+      else
+      match scaleParams scaled scale with
+      | fc :: dc :: pars =>
+        match construct o drag with
+        | .error e => some e.name
+        | .ok m =>
+          match flt.validate with
+          | some e => some e.name
+          | none =>
+            match m.psd flt (fs.headD 1.0) fc dc pars with
+            | .error e => some e.name
+            | .ok _ => some ("ok " ++ showFloat (lorentzianLoss (m.psdOr flt fc dc pars (0.0 / 0.0)) (Float.ofNat n) fs ps))
+      | _ => none
+    | _ => none
   | _ => none
 
 end Verif.C11
